@@ -727,6 +727,22 @@ func (g *gen) variants(tag string) []variant {
 		p.Files = append(p.Files[:3:3], append([]synthrepo.File{{Name: "usr/a.ln", Type: tar.TypeLink, Linkname: "usr/tool", Mode: 0o755}}, p.Files[3:]...)...)
 	})
 	add("links", "indexed package has a hard link that precedes its target", HkF, "", whole("as indexed", HkF))
+	// a regular file AFTER a hard link is held to its recorded checksum like any other
+	mid := func(desc string, alter bool) *synthrepo.Built {
+		return mk(desc, "K", func(p *synthrepo.Pkg) {
+			tool := p.Files[3]
+			if alter {
+				tool.RawChecksum = hex.EncodeToString(sha1sum(tool.Content))
+				tool.Content = []byte("#!/bin/sh\necho altered after the link\n")
+			}
+			p.Files = append(p.Files[:3:3], synthrepo.File{Name: "usr/a", Mode: 0o644, Content: []byte("a/" + tag)},
+				synthrepo.File{Name: "usr/a.ln", Type: tar.TypeLink, Linkname: "usr/a", Mode: 0o644}, tool)
+		})
+	}
+	HkMid, HkMidBad := mid("hardlink-in-the-middle", false), mid("hardlink-in-the-middle-altered", true)
+	add("links", "indexed package has a hard link between regular files", HkMid, "", whole("as indexed", HkMid))
+	add("links", "file after a hard link altered under its recorded checksum, data swapped in", HkMid, "", mix("genuine control + data whose file after the hard link is altered", HkMid, HkMidBad))
+	add("links", "indexed package: file after a hard link does not match its recorded checksum", HkMidBad, "", whole("as indexed", HkMidBad))
 	Dv := mk("device", "D", func(p *synthrepo.Pkg) {
 		p.Files = append(p.Files, synthrepo.File{Name: "usr/null", Type: tar.TypeChar, Devmajor: 1, Devminor: 3, Mode: 0o666})
 	})
